@@ -32,7 +32,7 @@ PROPS["C01"] = {
     "level": "exploration",
     "level_text": "Differential search against an independent reference interpreter written from docs/spec.md: ~5*10^4 (quick) / ~10^6 "
                   "(thorough) generated well-typed programs per run, each rendered with randomised legal layout and compared effect by "
-                  "effect (print text, tracer order, outcome class) with the real evaluator. No counterexample found is evidence, not proof.",
+                  "effect (print text, tracer order, outcome class) with the real evaluator. No counterexample found is evidence, not proof. A second search (TestEquality) compares values that are equal by construction or differ in one place, written at two source sites, for every type to depth 3.",
     "level_note": "Trusts the harness's reading of the specification (model interpreter in harness/m) and its renderer. Regions the documents "
                   "leave open (division by zero, sign of % on negative operands, non-finite results, accumulated vs multiplied range steps) "
                   "are skipped, counted as skipped:unspecified. Number formatting is assumed to be shortest decimal without exponent as in the docs' examples.",
@@ -143,7 +143,7 @@ PROPS["C14"] = {
                   "predicted by the reference interpreter), and then the stop flag is raised inside yield k for every k up to 400 yields "
                   "(sampled 200 points above, 40 points for endless programs): the run must end with ErrStopped, perform no further effect "
                   "(only the test summary may follow), yield at most once more, leave a prefix of the uninterrupted effects, and a later "
-                  "HandleEvent must report 'stopped' without effects.",
+                  "HandleEvent must report 'stopped' without effects. The same two checks are made inside the delivery of an event (TestHandlers: density and every stop point of the handler run, endless handlers included), and the summary printed after a stop must count exactly the tests that had run (TestSummary).",
     "level_note": "The yielder is the harness's own (rec.Yielder) and raises Evaluator.Stopped from inside Yield, as the browser platform "
                   "does. 'Keeps running after stop' is detected by a budget of 10000 further yields/effects, not by a timer. pkg/wasm "
                   "itself cannot be built here; the property is observed at the Evaluator API.",
@@ -190,7 +190,7 @@ PROPS["C02"] = {
                   "the run must end by completion, a documented panic, exit, failed test or stop - never an internal error, a Go panic "
                   "or an unclassified error; (3) every built-in (60 signatures) with arguments from boundary classes (NaN, +-Inf, -0, "
                   "2^31, 1e300, empty/non-ASCII/format-verb strings, empty and nested composites, any-wrapped values): allowed outcome and "
-                  "typeof of the result equal to the declared return type.",
+                  "typeof of the result equal to the declared return type. (4) borderline programs: typed contexts and selector-chain stores filled with expressions of the same, a related or an unrelated type (about a fifth is accepted): what the parser accepts must run to a documented outcome.",
     "level_note": "Go panics are observed with recover; two host crashes that recover cannot survive (Go stack overflow on cyclic values and "
                   "on unbounded recursion) are open findings whose reproducers run through the real evy binary in a subprocess; the "
                   "in-process search avoids them by construction (fuel bounds recursion depth, generators do not build cycles).",
@@ -352,7 +352,7 @@ PROPS["C16"] = {
                   "break, block locals, shadowing) are run on the evaluator and on compiler+VM; every global of the evaluator must have "
                   "the same structural value on the VM (hook VerifGlobals on both sides), run-time errors must correspond (division by "
                   "zero may fail on the VM alone). A quarter of the programs get exactly one construct from outside the subset (10 kinds): "
-                  "Compile must then return an error.",
+                  "Compile must then return an error. Two further generators target what random programs seldom reach: alias histories (copies, derived arrays, in-place updates) and control-flow skeletons (nested loops, if/else chains on the counters, breaks at chosen places, the path folded into a global). A VM run is stopped by an instruction budget (hook), not by a clock.",
     "level_note": "The VM has no instruction budget; a VM run is abandoned after 3 s and reported as vm-hang (the evaluator run is "
                   "bounded by fuel first). Two open VM findings (map store order, loop variable slot) are avoided by construction and "
                   "counted in excluded_by_construction; their reproducers run on every check.",
@@ -455,7 +455,7 @@ PROPS["C18"] = {
                   "original or exactly the formatted text - the original unless the rename completed -, keep its permission bits, and "
                   "a failure of a call the formatter depends on must give a non-zero exit status. `evy fmt -c` (file and stdin) must "
                   "exit 0 exactly for already formatted input and leave bytes, mode and mtime alone; a file that does not parse must be "
-                  "left untouched with a non-zero status and a message naming it.",
+                  "left untouched with a non-zero status and a message naming it. Invocations with 2-4 file arguments of mixed kinds are checked without fault injection (TestMulti).",
     "level_note": "Fault points are the system-call boundaries of one process (where file-system state can change); power loss (no "
                   "fsync) is outside the statement. Short writes are not injected: strace's retval injection does not perform the partial "
                   "write, which no real kernel does. Enumeration is complete over the calls that touch the file's directory, per file.",
